@@ -178,11 +178,42 @@ def gen_feed(rng):
             " D " + " ".join(D) + " S " + " ".join(hx(s) for s in seqs))
 
 
+def gen_names(rng):
+    """grouping / naming: 1-3 FASTA files (some empty, repeated record names, names with blanks), one of the
+    four modes; file names are plain (they are created under a temp directory)"""
+    mode = rng.choice(["file", "file", "first", "singleton", "merge"])
+    if mode == "merge":
+        mode = "merge:" + hx(rng.choice(["m", "my name", "x y  z", "s0"]))
+    k = rng.choice([3, 5, 7])
+    toks = []
+    used = set()
+    for f in range(rng.choice([1, 2, 2, 3])):
+        fname = rng.choice(["a.fa", "b.fasta", "in put.fa", "c", "d.fa"])
+        if fname in used:
+            continue
+        used.add(fname)
+        toks += ["F", hx(fname)]
+        nrec = rng.choice([0, 1, 1, 2, 3])
+        for i in range(nrec):
+            name = rng.choice([f"r{i}", f"r{i} some description", "dup", f"s{f}_{i}|x"])
+            toks.append(hx(name) + ":" + hx(dna_record(rng, 4, 40).replace("-", "N")))
+    if not toks:
+        toks = ["F", hx("a.fa")]
+    return f"names {mode} {k} " + " ".join(toks)
+
+
 def gen_case(rng, flavour):
     lines = []
     n = rng.randint(4, 10)
     for _ in range(n):
         r = rng.random()
+        if flavour == "names":
+            if r < 0.85:
+                lines.append(gen_names(rng))
+            else:
+                lines.append("setname " + hx(rng.choice(["-", "a.fa", "--", "- ", "x-"])) + " " +
+                             rng.choice(["none", hx("nm"), hx("-"), "-"]))
+            continue
         if flavour == "feed" and r < 0.7:
             l = gen_feed(rng)
             if l:
@@ -214,12 +245,28 @@ def gen_case(rng, flavour):
     return lines or ["parse " + hx("k=21")]
 
 
-def same(a, b):
-    """`feed` lines carry content only the implementation can compute (hashes of sequences): the model
-    answers `feed`, the oracle reads the implementation's line"""
-    if a.startswith("feed") and b.startswith("feed"):
-        return True
-    return a == b
+_MD5 = re.compile(r"MD5\{(\d+);([\d,]*)\}")
+_BODY = re.compile(r"BODY\{([\d,=]*)\}")
+
+
+def post_model(lines):
+    """the model prints md5 pre-images and the hash/abundance listing of every fed sketch (it computes the
+    hashes itself: C02's SeqToHashes model + Murmur3); apply the digests the adapter prints"""
+    import hashlib
+    import common
+
+    def md5(m):
+        mins = [int(x) for x in m.group(2).split(",")] if m.group(2) else []
+        return common.md5_of_pre(int(m.group(1)), mins)
+
+    def body(m):
+        return hashlib.md5(m.group(1).encode()).hexdigest()[:12]
+    out = []
+    for l in lines:
+        if "{" in l:
+            l = _BODY.sub(body, _MD5.sub(md5, l))
+        out.append(l)
+    return out
 
 
 # --------------------------------------------------------------------------
@@ -314,6 +361,32 @@ def oracle(case, impl):
             if got != exp:
                 bad.append((idx, "C14:sketch:wrong-sketch-set",
                             f"`{[s for s in strs]}` ({cmd_mol}, split={split}) built {got} but the specification asks for {exp}"))
+        elif w[0] == "names" and obs.startswith("ok"):
+            # the property's own reading of "per-record or merged, named from file or first record"
+            mode = w[1]
+            files, cur = [], None
+            for t in w[3:]:
+                if t == "F":
+                    cur = None
+                elif cur is None:
+                    cur = (unhx(t), [])
+                    files.append(cur)
+                else:
+                    cur[1].append(unhx(t.split(":")[0]))
+            got = [tuple(unhx(x) for x in g.split("|")[:2]) for g in obs[3:].split(";")] if obs[3:] else []
+            if mode == "singleton":
+                exp = [(n, f) for f, recs in files for n in recs]
+            elif mode == "first":
+                exp = [(recs[0], f) for f, recs in files if recs]
+            elif mode == "file":
+                exp = [("", f) for f, recs in files if recs]
+            else:
+                nm = unhx(mode.split(":")[1])
+                exp = [(nm, None)] if any(recs for _, recs in files) else []
+            ok = len(got) == len(exp) and all(g[0] == e[0] and (e[1] is None or g[1] == e[1]) for g, e in zip(got, exp))
+            if not ok:
+                bad.append((idx, "C14:sketch:wrong-names", f"`sketch` in mode {mode.split(':')[0]} on files {files} wrote signatures (name, filename) = {got}; "
+                                                            f"the documentation promises {exp}"))
         elif w[0] == "feed" and obs.startswith("feed F "):
             body = obs[len("feed F "):]
             fpart, _, dpart = body.partition(" D ")
@@ -321,17 +394,13 @@ def oracle(case, impl):
             if fpart.startswith("err "):
                 bad.append((idx, "C14:sketch:valid-spec-refused", f"a specification in the documented grammar was refused: {fpart} for `{op[:120]}`"))
                 continue
-            ferr = None
-            if " FERR " in fpart:
-                fpart, _, ferr = fpart.partition(" FERR ")
+            ferr = derr = None
+            if fpart.startswith("FERR "):
+                ferr, fpart = fpart[5:].strip(), " M "
             fs, _, ms = fpart.partition(" M ")
             F, M = fs.split(), ms.split()
-            derr = None
             if D and D[-1].startswith("DERR:"):
                 derr = D.pop()[5:]
-            if len(F) != len(D):
-                bad.append((idx, "C14:sketch:wrong-sketch-count", f"{len(F)} sketches built, {len(D)} requested by `{op[:120]}`"))
-                continue
             if any(d.startswith("Dexc:") for d in D):
                 bad.append((idx, "C14:sketch:no-direct-sketch", f"the command accepts a specification ({op[:100]}) for which MinHash(...) itself refuses to create a sketch ({D})"))
                 continue
@@ -340,6 +409,12 @@ def oracle(case, impl):
                 continue
             if ferr:
                 continue          # the command aborts on this error: nothing else is observable
+            if len(F) != len(D):
+                bad.append((idx, "C14:sketch:wrong-sketch-count", f"{len(F)} sketches built, {len(D)} requested by `{op[:120]}`"))
+                continue
+            if any(d.startswith("Dexc:") for d in D):
+                bad.append((idx, "C14:sketch:no-direct-sketch", f"the command accepts a specification ({op[:100]}) for which MinHash(...) itself refuses to create a sketch ({D})"))
+                continue
             for i, (f, d) in enumerate(zip(F, D)):
                 if f != d:
                     ff, dd = f.split(":"), d.split(":")
